@@ -28,7 +28,8 @@ NOT_APPLICABLE = {
     "C19": "pure function of (formats, styles, raw value) (DESIGN 7)",
 }
 
-PENDING = {}
+_ALL = ["C%02d" % i for i in range(1, 21)]
+PENDING = {p: "not claimed yet: its simulation check is designed (DESIGN.md section 6) but not built/validated at this commit" for p in _ALL if p not in CHECKS and p not in NOT_APPLICABLE}
 
 
 def build():
